@@ -193,6 +193,10 @@ class LinUnit(Unit):
                           {"kind": "race", "report": err[:8000]})
         elif p.returncode != 0:
             raise Inconclusive("driver kvconc died: %s" % (err or p.stdout)[-2000:])
+        m = re.search(r'"burst_hangs": (\d+)', p.stdout or "")
+        if m and int(m.group(1)) > 0:
+            ctx.violation(self.name, "kvconc:hang", "%s unlogged bursts of 16 goroutines did not finish within the watchdog's "
+                          "bound (deadlock)" % m.group(1), {"kind": "race", "report": p.stdout})
         with open(tr) as fh:
             hs = split_histories(fh.read())
         if not hs:
